@@ -922,6 +922,8 @@ class FuncBitShiftLeft(ValueFunc):
             raise CklRuntimeError(
                 ValueString("ERROR"), "Negative shift count", pos
             )
+        if n >= 32:
+            return ValueInt(0)
         return ValueInt((a << n) & 0xFFFFFFFF)
 
 
